@@ -744,6 +744,8 @@ func runC15(c *Check) {
 	c.MinInstances("C15-R4", 2)
 	c.Doc("C15-R8", "EO: the initialisation marker of InitChain and the genesis records it vouches for are staged in one batch committed once, or the marker is written after them: never a marker on disk without the genesis root.")
 	c.MinInstances("C15-R8", 1)
+	ruleNoBatchUseAfterCommit(c, p, "C15-R9", kvPkg)
+	c.MinInstances("C15-R9", 2)
 	c.MinInstances("C15-R5", 1)
 	ruleFinalisationRepeatable(c, "C15-R6")
 	ruleReexecutionAccepted(c, "C15-R7")
